@@ -7,63 +7,91 @@ import Pandora.Proofs.C18
 namespace Pandora.Proofs.C18
 open Pandora.Model.C18 Pandora.Spec.C18
 
-/-- creation step + state of `NewFactory` for the requested form -/
-abbrev created (inp : Input) : St × Except Err Fac :=
-  regNewFactory inp.sh inp.w inp.form.numOut (initSt inp.sh inp.w)
+/-- a phase starts with an empty event log -/
+abbrev st0 (st : St) : St := { st with log := [] }
+
+/-- creation step + state of `NewFactory` for the requested form, in a phase started in `st` -/
+abbrev created (inp : Input) (st : St) : St × Except Err Fac :=
+  regNewFactory inp.sh inp.w inp.form.numOut (st0 st)
 
 /-- the k calls of `New` -/
-abbrev newCalls (inp : Input) : St × List Step :=
-  iter (step (regNew inp.sh inp.w)) inp.k (initSt inp.sh inp.w)
+abbrev newCalls (inp : Input) (st : St) : St × List Step :=
+  iter (step (regNew inp.sh inp.w)) inp.k (st0 st)
 
 /-- the k calls of the factory `fac` handed out by `NewFactory` -/
-abbrev facCalls (inp : Input) (fac : Fac) : St × List Step :=
-  iter (step (callFac inp.sh inp.w fac)) inp.k (created inp).1
+abbrev facCalls (inp : Input) (st : St) (fac : Fac) : St × List Step :=
+  iter (step (callFac inp.sh inp.w fac)) inp.k (created inp st).1
 
-/-- every run is: registration accepted, and either k calls of `New`, or a failed `NewFactory`, or a successful
-`NewFactory` followed by k calls of its result -/
-theorem run_cases {inp : Input} {obs : Obs} (h : run inp = some obs) :
-    registerOk inp.sh = true ∧
-    ((inp.form = .component ∧ obs.steps = (newCalls inp).2 ∧ obs.views = viewsOf (newCalls inp).1.heap (newCalls inp).2) ∨
+/-- every phase is: either k calls of `New`, or a failed `NewFactory`, or a successful `NewFactory` followed by k
+calls of its result -/
+theorem phase_cases (inp : Input) (st : St) :
+    ((inp.form = .component ∧ (phaseObs inp st).steps = (newCalls inp st).2 ∧
+        (phaseObs inp st).views = viewsOf (newCalls inp st).1.heap (newCalls inp st).2) ∨
      (inp.form ≠ .component ∧ (inp.form.numOut = 1 ∨ inp.form.numOut = 2) ∧
         (inp.form == .facNoErr) = (inp.form.numOut == 1) ∧
-        ((∃ e, (created inp).2 = .error e ∧ obs.steps = [⟨(created inp).1.log.reverse, .err e⟩]) ∨
-         (∃ fac, (created inp).2 = .ok fac ∧
-            obs.steps = ⟨(created inp).1.log.reverse, .made⟩ :: (facCalls inp fac).2 ∧
-            obs.views = viewsOf (facCalls inp fac).1.heap obs.steps)))) := by
+        ((∃ e, (created inp st).2 = .error e ∧ (phaseObs inp st).steps = [⟨(created inp st).1.log.reverse, .err e⟩]) ∨
+         (∃ fac, (created inp st).2 = .ok fac ∧
+            (phaseObs inp st).steps = ⟨(created inp st).1.log.reverse, .made⟩ :: (facCalls inp st fac).2 ∧
+            (phaseObs inp st).views = viewsOf (facCalls inp st fac).1.heap (phaseObs inp st).steps)))) := by
+  obtain ⟨sh, form, w, k⟩ := inp
+  cases form with
+  | component => exact .inl ⟨rfl, rfl, rfl⟩
+  | facNoErr =>
+    refine .inr ⟨by simp, .inl rfl, rfl, ?_⟩
+    cases hc : (regNewFactory sh w Form.facNoErr.numOut (st0 st)).2 with
+    | error e =>
+      refine .inl ⟨e, rfl, ?_⟩
+      simp only [phaseObs, phaseSt, hc]
+    | ok fac =>
+      refine .inr ⟨fac, rfl, ?_, ?_⟩ <;> simp only [phaseObs, phaseSt, hc]
+  | facErr =>
+    refine .inr ⟨by simp, .inr rfl, rfl, ?_⟩
+    cases hc : (regNewFactory sh w Form.facErr.numOut (st0 st)).2 with
+    | error e =>
+      refine .inl ⟨e, rfl, ?_⟩
+      simp only [phaseObs, phaseSt, hc]
+    | ok fac =>
+      refine .inr ⟨fac, rfl, ?_, ?_⟩ <;> simp only [phaseObs, phaseSt, hc]
+
+theorem st0_initSt (sh : Shape) (w : World) : st0 (initSt sh w) = initSt sh w := by
+  unfold initSt; split <;> rfl
+
+/-- a run is the phase started in the state right after registration -/
+theorem run_eq_phase {inp : Input} {obs : Obs} (h : run inp = some obs) :
+    registerOk inp.sh = true ∧ obs = phaseObs inp (initSt inp.sh inp.w) := by
   obtain ⟨sh, form, w, k⟩ := inp
   unfold run runSt at h
   by_cases hr : registerOk sh = true
   · refine ⟨hr, ?_⟩
     simp only [hr, Bool.not_true, Bool.false_eq_true, if_false] at h
+    have h0 := st0_initSt sh w
     cases form with
     | component =>
       simp only [Option.map_some, Option.some.injEq] at h
       subst h
-      exact .inl ⟨rfl, rfl, rfl⟩
+      simp only [phaseObs, phaseSt, h0]
     | facNoErr =>
-      refine .inr ⟨by simp, .inl rfl, rfl, ?_⟩
       simp only at h
       cases hc : (regNewFactory sh w Form.facNoErr.numOut (initSt sh w)).2 with
       | error e =>
         simp only [hc, Option.map_some, Option.some.injEq] at h
         subst h
-        exact .inl ⟨e, rfl, rfl⟩
+        simp only [phaseObs, phaseSt, h0, hc]
       | ok fac =>
         simp only [hc, Option.map_some, Option.some.injEq] at h
         subst h
-        exact .inr ⟨fac, rfl, rfl, rfl⟩
+        simp only [phaseObs, phaseSt, h0, hc]
     | facErr =>
-      refine .inr ⟨by simp, .inr rfl, rfl, ?_⟩
       simp only at h
       cases hc : (regNewFactory sh w Form.facErr.numOut (initSt sh w)).2 with
       | error e =>
         simp only [hc, Option.map_some, Option.some.injEq] at h
         subst h
-        exact .inl ⟨e, rfl, rfl⟩
+        simp only [phaseObs, phaseSt, h0, hc]
       | ok fac =>
         simp only [hc, Option.map_some, Option.some.injEq] at h
         subst h
-        exact .inr ⟨fac, rfl, rfl, rfl⟩
+        simp only [phaseObs, phaseSt, h0, hc]
   · simp [hr] at h
 
 theorem viewsOf_made (heap : Nat → Cfg) (evs : List Ev) (l : List Step) :
@@ -72,18 +100,19 @@ theorem viewsOf_made (heap : Nat → Cfg) (evs : List Ev) (l : List Step) :
 
 theorem nodup_of (l : List Nat) (h : l.Nodup) : nodup l = true := by simp [nodup, h]
 
-/-- `freshOk` of a run -/
-theorem fresh_run {inp : Input} {obs : Obs} (h : run inp = some obs) (ha : freshApplies inp = true) :
-    freshOk inp obs = true := by
-  obtain ⟨_, hcase⟩ := run_cases h
+/-- `freshOk` of a phase started in any state -/
+theorem fresh_phase (inp : Input) (st : St) (ha : freshApplies inp = true) :
+    freshOk inp (phaseObs inp st) = true := by
+  have hcase := phase_cases inp st
+  generalize phaseObs inp st = obs at hcase ⊢
   simp only [freshApplies, Bool.and_eq_true, bne_iff_ne, ne_eq, Bool.or_eq_true, beq_iff_eq,
     Bool.not_eq_true'] at ha
   obtain ⟨⟨hc, hs⟩, hform⟩ := ha
   rcases hcase with ⟨hf, hsteps, hviews⟩ | ⟨hf, hn, _, hcr⟩
   · -- k calls of `New`
     obtain ⟨f1, f2, f3, f4, f5⟩ := fresh_iter inp.sh inp.w inp.sh.factory false (step (regNew inp.sh inp.w))
-      (fun st => step_regNew inp.sh inp.w st) hc hs rfl inp.k (initSt inp.sh inp.w)
-    have hcalls : callsOf inp obs = (newCalls inp).2 := by simp [callsOf, hf, hsteps]
+      (fun st => step_regNew inp.sh inp.w st) hc hs rfl inp.k (st0 st)
+    have hcalls : callsOf inp obs = (newCalls inp st).2 := by simp [callsOf, hf, hsteps]
     simp only [freshOk, hcalls, hf, beq_self_eq_true, Bool.true_or, Bool.true_and, Bool.and_eq_true,
       List.all_eq_true, beq_iff_eq]
     refine ⟨⟨⟨⟨⟨f1, nodup_of _ f2⟩, nodup_of _ f3⟩, nodup_of _ f4⟩, ?_⟩, ?_⟩
@@ -94,9 +123,9 @@ theorem fresh_run {inp : Input} {obs : Obs} (h : run inp = some obs) (ha : fresh
       rcases hform with hform | hform
       · exact absurd hform hf
       · exact hform
-    obtain ⟨q1, q2, q3, q4⟩ := quad_proj (create_eq inp.sh inp.w inp.form.numOut (initSt inp.sh inp.w) (initSt_log _ _))
-    have hcs : createSpec inp.sh inp.w inp.form.numOut (initSt inp.sh inp.w) =
-        ((initSt inp.sh inp.w).heap, (initSt inp.sh inp.w).next, [], .ok (.wrapPlugin inp.form.numOut)) := by
+    obtain ⟨q1, q2, q3, q4⟩ := quad_proj (create_eq inp.sh inp.w inp.form.numOut (st0 st) rfl)
+    have hcs : createSpec inp.sh inp.w inp.form.numOut (st0 st) =
+        ((st0 st).heap, (st0 st).next, [], .ok (.wrapPlugin inp.form.numOut)) := by
       simp [createSpec, hfa, hc]
     rw [hcs] at q3 q4
     rcases hcr with ⟨e, he, _⟩ | ⟨fac, hfac, hsteps, hviews⟩
@@ -106,8 +135,8 @@ theorem fresh_run {inp : Input} {obs : Obs} (h : run inp = some obs) (ha : fresh
       subst hfac'
       obtain ⟨f1, f2, f3, f4, f5⟩ := fresh_iter inp.sh inp.w false (inp.form.numOut == 1)
         (step (callFac inp.sh inp.w (.wrapPlugin inp.form.numOut)))
-        (fun st => step_wrapPlugin inp.sh inp.w inp.form.numOut hn st hc) hc hs hfa.symm inp.k (created inp).1
-      have hcalls : callsOf inp obs = (facCalls inp (.wrapPlugin inp.form.numOut)).2 := by
+        (fun st => step_wrapPlugin inp.sh inp.w inp.form.numOut hn st hc) hc hs hfa.symm inp.k (created inp st).1
+      have hcalls : callsOf inp obs = (facCalls inp st (.wrapPlugin inp.form.numOut)).2 := by
         cases hform' : inp.form with
         | component => exact absurd hform' hf
         | facNoErr => simp [callsOf, hsteps, hform']
@@ -116,25 +145,34 @@ theorem fresh_run {inp : Input} {obs : Obs} (h : run inp = some obs) (ha : fresh
         rw [hsteps]; simp [q3]
       simp only [freshOk, hcalls, hhead, beq_self_eq_true, Bool.or_true, Bool.true_and, Bool.and_eq_true,
         List.all_eq_true, beq_iff_eq]
-      have hv : obs.views = viewsOf (facCalls inp (.wrapPlugin inp.form.numOut)).1.heap
-          (facCalls inp (.wrapPlugin inp.form.numOut)).2 := by
+      have hv : obs.views = viewsOf (facCalls inp st (.wrapPlugin inp.form.numOut)).1.heap
+          (facCalls inp st (.wrapPlugin inp.form.numOut)).2 := by
         rw [hviews, hsteps, viewsOf_made]
       refine ⟨⟨⟨⟨⟨f1, nodup_of _ f2⟩, nodup_of _ f3⟩, nodup_of _ f4⟩, ?_⟩, ?_⟩
       · intro v hvv; rw [hv] at hvv; exact f5 v hvv
       · rw [hv]; exact viewsOf_length _ _
 
-/-- `onceOk` of a run -/
-theorem once_run {inp : Input} {obs : Obs} (h : run inp = some obs) (ha : onceApplies inp = true) :
-    onceOk inp obs = true := by
-  obtain ⟨_, hcase⟩ := run_cases h
+/-- `onceOk` of a phase started in any state -/
+theorem once_phase (inp : Input) (st : St) (ha : onceApplies inp = true) :
+    onceOk inp (phaseObs inp st) = true := by
+  have hcase := phase_cases inp st
+  generalize phaseObs inp st = obs at hcase ⊢
   simp only [onceApplies, Bool.and_eq_true, bne_iff_ne, ne_eq] at ha
   obtain ⟨hfa, hform⟩ := ha
   rcases hcase with ⟨hf, _⟩ | ⟨_, hn, _, hcr⟩
   · exact absurd hf hform
-  · obtain ⟨o1, o2⟩ := once_factory inp.sh inp.w inp.form.numOut inp.k hn (initSt inp.sh inp.w) (initSt_log _ _) hfa
+  · obtain ⟨o1, o2⟩ := once_factory inp.sh inp.w inp.form.numOut inp.k hn (st0 st) rfl hfa
     rcases hcr with ⟨e, _, hsteps⟩ | ⟨fac, hfac, hsteps, _⟩
     · simp only [onceOk, hsteps, o1, List.all_nil, Bool.and_self]
     · simp only [onceOk, hsteps, o1, Bool.true_and, List.all_eq_true]
       exact o2 fac hfac
+
+theorem fresh_run {inp : Input} {obs : Obs} (h : run inp = some obs) (ha : freshApplies inp = true) :
+    freshOk inp obs = true := by
+  rw [(run_eq_phase h).2]; exact fresh_phase inp _ ha
+
+theorem once_run {inp : Input} {obs : Obs} (h : run inp = some obs) (ha : onceApplies inp = true) :
+    onceOk inp obs = true := by
+  rw [(run_eq_phase h).2]; exact once_phase inp _ ha
 
 end Pandora.Proofs.C18
